@@ -129,7 +129,8 @@ def workload_params(name, nsteps):
     if name.startswith('tebd') or name.startswith('tdvp') or name.startswith('expmpo'):
         # suffix '_trunc': chi_max so small that every step truncates (non-zero trunc_err)
         chi = 2 if name.endswith('_trunc') else 16
-        eng = dict(tebd='TEBDEngine', tdvp='TwoSiteTDVPEngine', expmpo='ExpMPOEvolution')[name.split('_')[0]]
+        eng = dict(tebd='TEBDEngine', tdvp='TwoSiteTDVPEngine', tdvp1='SingleSiteTDVPEngine',
+                   expmpo='ExpMPOEvolution')[name.split('_')[0]]
         ap = dict(trunc_params=dict(chi_max=chi, svd_min=1.e-12), dt=0.125, N_steps=2, max_trunc_err=None)
         if eng == 'TEBDEngine':
             ap['order'] = 2
@@ -203,6 +204,10 @@ def child_main(job):
             mark('loaded')
             res = resume_from_checkpoint(checkpoint_results=checkpoint_results, update_sim_params=job.get('extra', None))
         mark('done')
+    except KeyboardInterrupt:
+        # graceful abort after SIGINT (Simulation.handle_abort_signal / save_at_checkpoint): the process ends here
+        status = 'interrupted'
+        mark('interrupted')
     except Exception as e:
         import traceback
         status = 'exception:%s' % type(e).__name__
@@ -250,13 +255,16 @@ def run_child(cwd, job, kill=None, timeout=300):
         open(os.path.join(cwd, 'marker'), 'w').close()
     cmd = ['strace', '-f', '-o', log, '-s', '48', '-e', 'trace=' + TRACE_SET]
     if kill is not None:
-        cmd += ['-e', 'inject=%s:signal=KILL:when=%d' % kill]
+        cmd += ['-e', 'inject=%s:signal=%s:when=%d' % (kill[0], kill[2] if len(kill) > 2 else 'KILL', kill[1])]
     for name in (out, bak, 'marker'):
         cmd += ['-P', name, '-P', os.path.join(os.path.abspath(cwd), name)]
     cmd += [PYTHON, '-W', 'ignore', '-m', 'harness.crash', json.dumps(job)]
     env = dict(os.environ)
     repo = os.environ.get('VERIF_REPO', '/repo')
-    env.update(PYTHONPATH=repo + ':' + VERIF, PYTHONDONTWRITEBYTECODE='1', PYTHONHASHSEED='0',
+    pp = [repo, VERIF]
+    if env.get('VERIF_SO'):      # ./check: compiled kernels rebuilt from the tree, selected by harness/site
+        pp.insert(0, os.path.join(VERIF, 'harness', 'site'))
+    env.update(PYTHONPATH=':'.join(pp), PYTHONDONTWRITEBYTECODE='1', PYTHONHASHSEED='0',
                OMP_NUM_THREADS='1', MKL_NUM_THREADS='1', OPENBLAS_NUM_THREADS='1')
     try:
         p = subprocess.run(cmd, cwd=cwd, env=env, stdout=subprocess.PIPE, stderr=subprocess.STDOUT, timeout=timeout)
@@ -496,12 +504,11 @@ def run_incarnation(task):
                 res['traceback'] = f.read()[-3000:]
     elif not killed:
         raise CrashMachineryError('child neither killed nor finished: exit %s\n%s' % (code, stdout[-2000:]))
-    if killed or res.get('summary', {}).get('status') != 'ok' or task.get('project_always'):
-        res['proj'] = dict(out=project_file(os.path.join(task['dir'], out)),
-                           bak=project_file(os.path.join(task['dir'], bak)))
-    elif 'summary' in res:
-        res['proj'] = dict(out=project_file(os.path.join(task['dir'], out)),
-                           bak=project_file(os.path.join(task['dir'], bak)))
+    if res.get('summary', {}).get('status') == 'interrupted':
+        killed = res['killed'] = True      # the process is gone, its memory lost: for the files this is a crash
+        res['interrupted'] = True
+    res['proj'] = dict(out=project_file(os.path.join(task['dir'], out)),
+                       bak=project_file(os.path.join(task['dir'], bak)))
     res['wall'] = time.time() - t0
     return res
 
@@ -650,6 +657,8 @@ def execute_plan(plan):
         kill = None
         if kill_idx is not None:
             kill = (ref_raw[kill_idx]['kind'], ref_raw[kill_idx]['occ'])
+            if spec_inc.get('sig'):
+                kill = kill + (spec_inc['sig'],)
         r = run_incarnation(dict(common, dir=os.path.join(root, 'inc%d' % n), tag='inc%d' % n, kill=kill))
         nruns += 1
         evs = clean_events(r['raw'])
@@ -660,7 +669,7 @@ def execute_plan(plan):
         trace.extend(evs)
         info = dict(n=n, mode=mode, f=rf, kill=kill, kill_idx=kill_idx, killed=r['killed'], nevents=len(evs),
                     proj=dict((k, dict((a, b) for a, b in v.items() if a != 'summary')) for k, v in r['proj'].items()),
-                    status=r.get('summary', {}).get('status'))
+                    status=r.get('summary', {}).get('status'), interrupted=bool(r.get('interrupted')))
         incs.append(info)
         if not r['killed']:
             if kill is not None:
